@@ -128,11 +128,20 @@ struct Monitor {
     auto run(Locator const& where, std::vector<Ev> const& evs, std::size_t from) -> StepOut
     {
         StepOut out;
-        std::map<Loc, int> tname;   // temporaries by first appearance within the step
+        // raw text only: a temporary gets the smallest index not in use when it first appears and
+        // gives it back when it is destroyed (so the name does not depend on stack addresses)
+        std::map<Loc, int> tname;
         auto name = [&](Loc const& l) {
             if (l.first >= 0) { return "s" + std::to_string(l.first) + "." + std::to_string(l.second); }
             auto it = tname.find(l);
-            if (it == tname.end()) { it = tname.emplace(l, static_cast<int>(tname.size())).first; }
+            if (it == tname.end()) {
+                int k = 0;
+                for (bool used = true; used; ) {
+                    used = false;
+                    for (auto const& kv : tname) { if (kv.second == k) { used = true; ++k; break; } }
+                }
+                it = tname.emplace(l, k).first;
+            }
             return "t" + std::to_string(it->second);
         };
         auto tok = [&](Loc const& l, std::string const& t) {
@@ -184,6 +193,7 @@ struct Monitor {
                 tok(l, "D");
                 st[l] = Dead;
                 out.raw += "D:" + nl;
+                if (l.first < 0) { tname.erase(l); }
                 break;
             }
             default: {
